@@ -12,6 +12,7 @@ export GOFLAGS=-mod=mod GOPROXY=off GOSUMDB=off GOTOOLCHAIN=local
 dir="${1%/}"; tier="${2:-quick}"; confirm="${3:-}"
 id=$(basename "$dir")
 prop=$(python3 -c "import json,sys;print(json.load(open(sys.argv[1]))['property'])" "$dir/meta.json")
+prop="${SEED_PROP:-$prop}"   # SEED_PROP=<id> runs another property's check against the change
 wt=$(mktemp -d /tmp/seedwt-XXXXXX); side=$(mktemp -d /tmp/seedbin-XXXXXX)
 cleanup() { git -C /repo worktree remove --force "$wt" >/dev/null 2>&1; rm -rf "$wt" "$side"; git -C /repo worktree prune; }
 trap cleanup EXIT
